@@ -765,7 +765,7 @@ pub fn report<S: Sim>(prop: &str, seed: u64, res: &CheckResult) -> Report {
             rep.harness_error = true;
             continue;
         }
-        let fname = format!("{}-{}-{}.json", prop, seed, f.run);
+        let fname = format!("{}-{}-{}-{}.json", prop, S::NAME, seed, f.run);
         let path = verif_root().join("replays").join(&fname);
         let _ = std::fs::create_dir_all(path.parent().unwrap());
         let doc = json!({
